@@ -34,6 +34,8 @@ type Engine struct {
 	houdini  map[string]*houdiniState
 	imports  map[string]string // alias -> package path (from contract files)
 	prevVC   *VC
+	solvers  *Solvers
+	workers  int
 }
 
 func NewEngine(repo string) (*Engine, error) {
@@ -494,6 +496,14 @@ func (fr *Frame) frameAllow(entry *State) (allow map[string][]frameAllowed, free
 	for _, item := range fc.Modifies {
 		item = strings.TrimSpace(item)
 		if item == "" || item == "nothing" || strings.HasPrefix(item, "ghost ") {
+			continue
+		}
+		if strings.HasPrefix(item, "maps ") {
+			parts := strings.Fields(item[5:])
+			if len(parts) != 2 {
+				panic(bindErr("modifies maps K V"))
+			}
+			free[vc.mapHeapVar(types.NewMap(vc.eng.resolveType(mustParseType(parts[0]), env.pkg), vc.eng.resolveType(mustParseType(parts[1]), env.pkg)))] = true
 			continue
 		}
 		if strings.HasPrefix(item, "array ") {
